@@ -96,6 +96,23 @@ func genC02(t *rapid.T) c02Case {
 		}
 		return c
 	}
+	if rapid.IntRange(0, 6).Draw(t, "directed6") == 0 {
+		// a follower that lags in the metadata keeps fetching with the old
+		// leader epoch while a replica that lacks its uncommitted tail leads
+		c.Steps = []c02Step{
+			{Op: "publish", N: rapid.IntRange(1, 3).Draw(t, "n0"), Policy: 2}, {Op: "settle"},
+			{Op: "crash", X: 1, Sel: 0}, // b goes away
+			{Op: "publish", N: rapid.IntRange(1, 3).Draw(t, "n1"), Policy: 1}, {Op: "settle"}, // a and c get them
+			{Op: "hold"}, {Op: "restart", X: 1}, // b is back but cannot catch up
+			{Op: "lag", X: 2}, // c stops applying metadata
+			{Op: "leader", X: 0, Sel: 0}, // b is elected; c does not know
+			{Op: "publish", N: rapid.IntRange(3, 5).Draw(t, "n2"), Policy: 1}, {Op: "settle"},
+			{Op: "publish", N: rapid.IntRange(1, 2).Draw(t, "n3"), Policy: 1}, {Op: "settle"},
+			{Op: "unlag"}, {Op: "settle"},
+			{Op: "publish", N: 1, Policy: 2}, {Op: "settle"},
+		}
+		return c
+	}
 	if rapid.IntRange(0, 5).Draw(t, "directed5") == 0 {
 		// a leader that lags two leader changes behind in the metadata keeps
 		// accepting publishes and sees the fetches followers send to its successors
